@@ -13,7 +13,7 @@ F1Types == {T("int8"), Inner}
 Tags == {<<>>, <<"n">>, <<"p", "q">>}
 Types == SetToSeq({TStruct(<<Fld("F0", g0, m0, t0), Fld("F1", <<>>, "", t1)>>) :
                      t0 \in F0Types, g0 \in Tags, m0 \in {"", "inline"}, t1 \in F1Types})
-OkType(t) == /\ (t.f[1].mode = "inline" => t.f[1].t.k = "struct" /\ t.f[1].tag = <<>>)
+OkType(t) == /\ (t.f[1].mode = "inline" => t.f[1].t.k = "struct" /\ t.f[1].tag = <<>> /\ t.f[1].t \notin {Pos, PosMix})
 
 VARIABLES ti, cs
 vars == <<ti, cs>>
